@@ -61,6 +61,30 @@ impl std::fmt::Display for Pieces<'_> {
     }
 }
 
+/// The same pieces through a formatting impl that does not stop at the first error: it remembers it,
+/// goes on with the remaining pieces ("always emit the closing bracket") and reports the error at
+/// the end. Legal for a `Display` impl; the writer's error must still be what `write_fmt` returns.
+pub struct Stubborn<'a>(pub &'a [Piece]);
+
+impl std::fmt::Display for Stubborn<'_> {
+    fn fmt(&self, f: &mut std::fmt::Formatter<'_>) -> std::fmt::Result {
+        let mut first = Ok(());
+        for p in self.0 {
+            let r = match p {
+                Piece::S(s) => f.write_str(s),
+                Piece::I(i) => write!(f, "{}", i),
+                Piece::Pad(s, w) => write!(f, "{:>w$}", s, w = *w as usize),
+                Piece::Hex(x) => write!(f, "{:#010x}", x),
+                Piece::Dbg(s) => write!(f, "{:?}", s),
+            };
+            if first.is_ok() {
+                first = r;
+            }
+        }
+        first
+    }
+}
+
 /// `write_fmt` case: `template` false ⇒ `format_args!("{}", Pieces)`, true ⇒ a fixed
 /// multi-argument template around the first pieces.
 #[derive(Debug, Clone, Serialize, Deserialize)]
@@ -73,6 +97,9 @@ pub struct FmtCase {
     /// may be tempted to treat them differently)
     #[serde(default)]
     pub literal: u8,
+    /// the pieces are formatted by `Stubborn` (keeps writing after an error) instead of `Pieces`
+    #[serde(default)]
+    pub stubborn: bool,
 }
 
 #[derive(Debug, Clone, Copy, PartialEq, Eq, Serialize, Deserialize)]
@@ -328,7 +355,12 @@ fn piece() -> impl Strategy<Value = Piece> {
 }
 
 pub fn fmt_case() -> impl Strategy<Value = FmtCase> {
-    (prop::collection::vec(piece(), 0..8), prop::bool::weighted(0.25), wscript(), prop_oneof![3 => Just(0u8), 1 => 1u8..=super::N_LITERALS]).prop_map(|(pieces, template, script, literal)| FmtCase { pieces, template, script, literal })
+    (prop::collection::vec(piece(), 0..8), prop::bool::weighted(0.25), wscript(), prop_oneof![3 => Just(0u8), 1 => 1u8..=super::N_LITERALS]).prop_map(|(pieces, template, script, literal)| FmtCase { pieces, template, script, literal, stubborn: false })
+        .prop_flat_map(|c| (Just(c), prop::bool::weighted(0.25)))
+        .prop_map(|(mut c, stubborn)| {
+            c.stubborn = stubborn && c.literal == 0;
+            c
+        })
 }
 
 pub fn print_case() -> impl Strategy<Value = PrintCase> {
